@@ -27,6 +27,8 @@ type Solver struct {
 	unknowns int
 	log     *os.File
 	timeoutMs int
+	tag string
+	byTag map[string]int
 }
 
 func solverBin() string {
@@ -184,6 +186,12 @@ func (s *Solver) readLine() (string, error) {
 
 func (s *Solver) Check() SatResult {
 	s.queries++
+	if s.tag != "" {
+		if s.byTag == nil {
+			s.byTag = map[string]int{}
+		}
+		s.byTag[s.tag]++
+	}
 	t0 := time.Now()
 	s.send("(check-sat)")
 	defer func() { s.solveNs += time.Since(t0).Nanoseconds() }()
